@@ -121,9 +121,10 @@ def observe(f, with_unlim=True):
         arr = v[...]
         mask = np.ma.getmaskarray(arr).ravel() if np.ma.isMaskedArray(arr) else np.zeros(np.size(arr), dtype=bool)
         vals = np.ma.getdata(arr).ravel()
-        cells = ['_' if m else lib.show_rat(x) for x, m in zip(vals.tolist(), mask.tolist())]
+        cells = ['_' if (m or (isinstance(x, float) and x != x)) else lib.show_rat(x)
+                 for x, m in zip(vals.tolist(), mask.tolist())]   # NaN cells are shown like masked cells
         shape = 'x'.join(str(s) for s in np.shape(arr)) or '-'
-        vs.append('%s|%s|%s|%s|%s|%s' % (k, '.'.join(v.dimensions) or '-', 'm' if mask.any() else 'p',
+        vs.append('%s|%s|%s|%s|%s|%s' % (k, '.'.join(v.dimensions) or '-', 'm' if '_' in cells else 'p',
                                         '.'.join(sorted(v.ncattrs())) or '-', shape, lib.show_list(cells)))
     return 'dims=%s vars=%s attrs=%s' % (lib.show_list(ds), ';'.join(vs) or '-', '.'.join(sorted(f.ncattrs())) or '-')
 
